@@ -87,7 +87,11 @@ void AddLineInfo(
         PNeu->Contents.FileName = FNum;
         PNeu->Contents.Space    = Space;
         PNeu->Contents.Address  = Address + z;
-        PNeu->Contents.Code     = ((CodeLen < z + 1) || (DontPrint)) ? 0 : WAsmCode[z];
+        /* one record per address unit: on a byte-counted target only CodeLen
+           bytes of the code buffer are valid, not CodeLen words */
+        PNeu->Contents.Code = ((CodeLen < z + 1) || (DontPrint)) ? 0
+                            : (Granularity() == 1)               ? BAsmCode[z]
+                                                                 : WAsmCode[z];
         if (z == 0) {
             PFirst = PNeu;
         }
